@@ -336,7 +336,10 @@ def delete(filething, delete_v1=True, delete_v2=True):
         else:
             insize = BitPaddedInt(insize)
             if id3 == b'ID3' and insize >= 0:
-                delete_bytes(f, insize + 10, 0)
+                try:
+                    delete_bytes(f, insize + 10, 0)
+                except ValueError:
+                    raise error("ID3 tag size larger than the file")
 
 
 class ID3FileType(mutagen.FileType):
